@@ -21,7 +21,7 @@ Section DelLeaves.
   Notation keys_ok := (keys_ok env fo ko).
   Notation FLv := (find_leaves env ko false false).
   Notation L := (flat_map plain_of).
-  Notation DR := (del_rec env ko false).
+  Notation DR := (del_rec env fo ko false).
 
   Definition del_res (s : schema) (fs : list (str * tree)) (par : dpath) (alts : list dpath)
       (items : list litem) (c' : option tree) : Prop :=
@@ -34,7 +34,7 @@ Section DelLeaves.
 
   (* a path element without keys names the whole list: only an empty list is accepted *)
   Lemma del_list_nokeys f s keys sfs es e0 prest c :
-    del_list env ko false f s keys sfs es e0 prest = (c, Ok tt) -> ekeys e0 = [] -> keys <> [] ->
+    del_list env fo ko false f s keys sfs es e0 prest = (c, Ok tt) -> ekeys e0 = [] -> keys <> [] ->
     (forall k e, In (k, e) es -> length k = length keys) -> es = [] /\ c = Some (TList []).
   Proof.
     intros H Hek Hkne Hlen. unfold del_list in H. rewrite Hek in H.
@@ -292,7 +292,7 @@ Section DelLeaves.
     destruct (c13_schemab_parts s Hc) as (Hgn & Hsw & Hsp).
     destruct (gn_schemab_fields s Hgn) as [Hok Hchs]. rewrite Hsf in Hok, Hchs.
     destruct (swfb_fields s Hsw) as [Hnd Hsub]. rewrite Hsf in Hnd, Hsub.
-    assert (Hunf : DR (S f') s (Some (TCont fs)) p = del_struct env ko false f' sfs fs p).
+    assert (Hunf : DR (S f') s (Some (TCont fs)) p = del_struct env fo ko false f' sfs fs p).
     { destruct Hs as [->|(o1 & k1 & a1 & b1 & ->)]; [apply del_rec_cont | apply del_rec_entry]. }
     rewrite Hunf in Hdel. clear Hunf.
     destruct g1 as [|g1]; [discriminate|]. destruct g2 as [|g2]; [discriminate|].
